@@ -8,6 +8,8 @@ mkdir -p bin evidence replays
 go build -o bin/mcgen ./mcgen
 go build -o bin/check ./cmd/check
 go test -count=1 ./mc
+# conformance of mcgen + the model runtime with the real Go runtime (DESIGN 2.7 / 8.2)
+LITMUS_N=300 litmus/run.sh
 # compile every harness once (with its mcgen overlay) so that the first check
 # does not pay for a cold build cache
 ids=$(python3 -c "import json;print(' '.join(c['property_id'] for c in json.load(open('MANIFEST.json'))['checks']))")
